@@ -1173,8 +1173,11 @@ class PoolFam(SyncFam):
         if act != len(self.held) + g:
             bad("conservation", self.CLS, "active-count" + ("-leak" if act > len(self.held) + g else "-low"),
                 f"active={act} but {len(self.held)} held + {g} handed off")
-        if tot != act + idle:
-            bad("conservation", self.CLS, "total-vs-active-idle", f"total={tot} active={act} idle={idle}")
+        # a connection being established may or may not be counted in total_connections (both readings are accepted)
+        in_setup = self.creating + (1 if self.cfg.get("warmup") else 0)
+        if not (act + idle <= tot <= act + idle + in_setup):
+            bad("conservation", self.CLS, "total-vs-active-idle" + ("-high" if tot > act + idle else "-low"),
+                f"total={tot} active={act} idle={idle} set-ups in flight<={in_setup}")
         if p.pending_requests > 0 and idle > 0:
             bad("head-waiter-served", self.CLS, "waiting-with-idle-connection", f"{p.pending_requests} waiters, {idle} idle connections")
         closed = p.stats.connections_closed
@@ -1190,6 +1193,8 @@ class PoolFam(SyncFam):
         if self.blockedq or self.held or p.active_connections or p.pending_requests:
             bad("conservation", self.CLS, "leak-at-quiescence",
                 f"end of run: held={len(self.held)} active={p.active_connections} pending={p.pending_requests} blocked={len(self.blockedq)}")
+        if p.total_connections != p.idle_connections:
+            bad("conservation", self.CLS, "total-vs-active-idle-at-quiescence", f"end of run: total={p.total_connections} idle={p.idle_connections}")
         if p.total_connections > max(self.minc, 0) and not self.cfg.get("short_end"):
             bad("conservation", self.CLS, "idle-not-expired", f"end of run: total={p.total_connections} idle connections never expired (min={self.minc})")
 
